@@ -13,6 +13,7 @@ a transform are invariant or transported per the reviewed tables (shared with C0
 from __future__ import annotations
 
 import ast
+import re
 
 import numpy as np
 import sympy as sp
@@ -309,18 +310,24 @@ def check(run):
         run.instance("R4", ta.where, f"re-winding = column reversal of every face ({ftxt})", ok)
         if not ok:
             run.violation("R4", ta.where, f"the re-winding store `{ftxt}` is not a column reversal of all faces", key=key_of("C04-R4", "fliplr"))
+        # the conditions under which the store runs, as normalised (atom, polarity) pairs: `not`, double negation, and / or
+        # and the branch taken are all folded into the polarity (sa/pathsum.py), so `if A and B: flip` and
+        # `if not (A and B): ... else: flip` read the same
+        from ..pathsum import _atoms
         conj = []
         for (i, pos) in enclosing_tests(ta, fst):
-            tests = i.test.values if isinstance(i.test, ast.BoolOp) and isinstance(i.test.op, ast.And) else [i.test]
-            for t_ in tests:
-                conj.append((pv.canon(t_, i), pos))
+            conj += _atoms(i.test, pos, lambda e_, origin=None, _i=i: pv.canon(e_, _i))
         kinds_ = []
         for txt, pos in conj:
+            while txt.startswith("not "):  # a negation that came in with an inlined local (`has_rotation = not allclose(...)`)
+                txt, pos = txt[4:].strip(), not pos
+                if txt.startswith("(") and txt.endswith(")"):
+                    txt = txt[1:-1]
             if pos and txt == f"trimesh.transformations.flips_winding({mp})":
                 kinds_.append("flips")
                 continue
-            if pos and txt.startswith("not "):
-                g = identity_guard(txt[4:], mp)
+            if not pos:
+                g = identity_guard(txt, mp)
                 if g is not None and g[0] == f"{mp}[:3, :3]" and g[1] is not None and g[1] <= 1e-6:
                     kinds_.append("linear-part-not-identity")
                     continue
@@ -428,18 +435,44 @@ def check(run):
     pvt = Prov(ix, tp)
     n_sc = 0
     for i in ast.walk(tp.node):
-        if isinstance(i, ast.If) and isinstance(i.test, ast.Compare) and any(isinstance(x, ast.Return) for x in i.body):
-            txt = pvt.canon(i.test, i)
-            n_sc += 1
-            e = ast.parse(txt, mode="eval").body
+        # a shortcut: an `if` whose body returns the points as they came in
+        rets_ = [x for x in i.body if isinstance(x, ast.Return) and x.value is not None] if isinstance(i, ast.If) else []
+        if not rets_ or not all(pvt.canon(x.value, x) in ("P_points", "P_points.copy()") for x in rets_):
+            continue
+        txt = pvt.canon(i.test, i)
+        n_sc += 1
+        e = ast.parse(txt, mode="eval").body
+        IDENT = ("_IDENTITY[", "numpy.eye(", "numpy.identity(")
+        ok, why = None, ""
+        if isinstance(e, ast.Compare) and len(e.ops) == 1 and isinstance(e.ops[0], (ast.Lt, ast.LtE)) and isinstance(e.comparators[0], ast.Constant):
             l = ast.unparse(e.left)
-            tol = e.comparators[0].value if isinstance(e.comparators[0], ast.Constant) else None
-            ok = l == "numpy.abs(P_matrix - _IDENTITY[:P_points.shape[1] + 1, :P_points.shape[1] + 1]).max()" and tol is not None and tol <= 1e-8 \
-                and isinstance(e.ops[0], (ast.Lt, ast.LtE))
-            run.instance("R7", tp.where, f"identity shortcut: `{txt[:120]}`", ok)
-            if not ok:
-                run.violation("R7", tp.where, f"transform_points skips the transform under `{txt[:100]}`: not a max-norm test of the whole matrix at <= 1e-8",
-                              key=key_of("C04-R7", "shortcut-test"))
+            tol = e.comparators[0].value
+            mm = re.fullmatch(r"numpy\.(?:abs|absolute)\(P_matrix - (.+)\)\.max\(\)", l)
+            ok = bool(mm) and mm.group(1).startswith(IDENT) and tol <= 1e-8
+            why = "not a max-norm test of the whole matrix at <= 1e-8"
+        elif isinstance(e, ast.Call) and ast.unparse(e.func) in ("numpy.allclose", "numpy.isclose", "trimesh.util.allclose"):
+            fn_ = ast.unparse(e.func)
+            kw_ = {k.arg: k.value for k in e.keywords}
+            args_ = [ast.unparse(a_) for a_ in e.args]
+            whole = len(args_) >= 2 and args_[0] == "P_matrix" and args_[1].startswith(IDENT)
+            if fn_ == "trimesh.util.allclose":
+                tol_n = e.args[2] if len(e.args) > 2 else kw_.get("atol")
+                ok = whole and isinstance(tol_n, ast.Constant) and tol_n.value <= 1e-8
+                why = "not a comparison of the whole matrix at <= 1e-8"
+            else:
+                rt = kw_.get("rtol", e.args[2] if len(e.args) > 2 else None)
+                at = kw_.get("atol", e.args[3] if len(e.args) > 3 else None)
+                rt_zero = isinstance(rt, ast.Constant) and rt.value == 0
+                ok = whole and rt_zero and isinstance(at, ast.Constant) and at.value <= 1e-8
+                why = (f"{fn_} applies a RELATIVE tolerance as well (rtol = {ast.unparse(rt) if rt is not None else 'default 1e-5'} against the ones on the diagonal): "
+                       f"matrices that scale by up to that much are treated as the identity and the points are returned unmoved")
+        if ok is None:
+            run.instance("R7", tp.where, f"identity shortcut `{txt[:100]}`: form not recognised - NOT decided", True, nontrivial=False)
+            run.assume(f"transform_points: the identity shortcut test `{txt[:80]}` is not in a recognised form")
+            continue
+        run.instance("R7", tp.where, f"identity shortcut: `{txt[:120]}`", ok)
+        if not ok:
+            run.violation("R7", tp.where, f"transform_points skips the transform under `{txt[:100]}`: {why}", key=key_of("C04-R7", "shortcut-test"))
     run.floor("identity shortcut tests in transform_points", n_sc, 1)
 
     # ------------------------------------------------------------------ R8 translation / scale matrices
